@@ -89,6 +89,10 @@ type Rewrite struct {
 	// noticed (inotify queue drained, library goroutines parked) before the
 	// new content appears.
 	Settle bool `json:"settle,omitempty"`
+	// SameAsInitial: this version is byte for byte the file the entry point
+	// started with (Leaves is ignored); only after at least one different
+	// version, and never directly after identical bytes.
+	SameAsInitial bool `json:"same_as_initial,omitempty"`
 	// RemoveOld (k8s): remove the previous ..ts-N directory after the swap.
 	RemoveOld bool `json:"remove_old,omitempty"`
 }
@@ -431,6 +435,10 @@ func genC18(watch bool) func(t *rapid.T) C18Case {
 				rw.RemoveOld = rapid.Bool().Draw(t, "rw_remove_old")
 				c.Rewrites = append(c.Rewrites, rw)
 			}
+			if n >= 2 && rapid.IntRange(0, 2).Draw(t, "rollback") != 2 {
+				// a rolled-back deployment: A -> B (-> C) -> A
+				c.Rewrites[rapid.IntRange(1, n-1).Draw(t, "rollback_at")].SameAsInitial = true
+			}
 			if n > 0 && rapid.IntRange(0, 5).Draw(t, "layout") == 5 {
 				c.Layout = "k8s"
 			}
@@ -559,7 +567,10 @@ func validateCase(c C18Case, td *typeDef) string {
 	if c.ScribbleBefore < 0 || c.ScribbleBefore > len(c.Rewrites) {
 		return "scribble point"
 	}
-	for _, rw := range c.Rewrites {
+	for k, rw := range c.Rewrites {
+		if rw.SameAsInitial && (k == 0 || c.Rewrites[k-1].SameAsInitial) {
+			return "rollback to the initial bytes without a different version before it"
+		}
 		if len(rw.Leaves) != len(td.leaves) {
 			return "rewrite leaf count"
 		}
@@ -736,6 +747,11 @@ func execCase[T any, TP ez.ConfigWithConfigPath[T]](c C18Case, td *typeDef, bubb
 	// file layer of version r (0 initial, 1.. rewrites): presence, origin, bad, alias
 	fileLeaf := func(i, r int) (in bool, gen int, bad, alias bool) {
 		if r == 0 {
+			lc := c.Leaves[i]
+			return lc.Layers&bFile != 0, gFile, lc.Bad&bFile != 0, lc.Alias&bFile != 0
+		}
+		if c.Rewrites[r-1].SameAsInitial {
+			// the file returns byte for byte to its start-up contents
 			lc := c.Leaves[i]
 			return lc.Layers&bFile != 0, gFile, lc.Bad&bFile != 0, lc.Alias&bFile != 0
 		}
@@ -1546,6 +1562,12 @@ func execCase[T any, TP ez.ConfigWithConfigPath[T]](c C18Case, td *typeDef, bubb
 				return *v
 			}
 		}
+		if c.Rewrites[r-1].SameAsInitial {
+			if content != firstContent {
+				return vrt.Discardf("harness: rollback version %d does not reproduce the initial bytes", r)
+			}
+			labels = append(labels, "rewrite-back-to-initial-bytes")
+		}
 		nBefore := len(recd.snapshot())
 		rw := c.Rewrites[r-1]
 		mech := rw.Mech
@@ -2099,6 +2121,7 @@ func TestC18Watch(t *testing.T) {
 		ID: "C18", Name: "watch",
 		Rule: "watch on, 0-3 later versions of the file (each with its own leaf subset and fresh values, so later versions OMIT keys earlier versions set and the leaf must fall back to env / flag / default, also below a non-nil default pointer; some rejected by Verify), " +
 			"at a drawn point before one of these versions the harness, acting as the caller, overwrites in place everything the reference-typed leaves of ITS OWN defaults struct point to (map entries, slice elements, pointees; not the maps/slices a flag is bound to) - the view and all later stacks must keep using the defaults as they were passed; " +
+			"some histories of two or three versions bring the file back, byte for byte, to its start-up contents after at least one different version (A -> B -> A; identical bytes directly after each other stay out: that is the documented duplicate suppression) - the view must return to the start-up stack and Verify must run on it again; " +
 			"versions are put in place by temp + rename-over, by unlink - (wait until the watcher has noticed: inotify queue drained, library goroutines parked) - temp + rename, by unlink - wait - create + write, by truncate in place - wait - write, or, in the Kubernetes AtomicWriter layout (path -> ..data/<base>, ..data -> ..ts-N), by a ..data symlink swap with or without removal of the old directory; " +
 			"while the file is missing the view must stay at the last good config and Verify must not run (the file source reports nothing for a missing file); Verify receivers seen while a file is rewritten in place (truncate / create + write: an empty or partial file is legitimately readable) are exempt from the membership rule but the final view is not; after each the view must converge to flag > env > NEW file > default " +
 			"(or stay, when Verify rejects the new stack), every Verify receiver / Events value / callback argument must be a full stack of some file version; convergence is polled, a 10 s stall is a violation only if three goroutine dumps 300 ms apart show every library goroutine parked, otherwise the case is discarded as inconclusive. " + c18Rule,
